@@ -97,7 +97,16 @@ def main():
     only = sys.argv[2] if len(sys.argv) > 2 else ""
     outdir = os.path.join(V, "mutation")
     os.makedirs(outdir, exist_ok=True)
-    out = open(os.path.join(outdir, "results.jsonl"), "a")
+    done = set()
+    rp = os.path.join(outdir, "results.jsonl")
+    if os.path.exists(rp):
+        for l in open(rp):
+            try:
+                r = json.loads(l)
+                done.add((r["file"], r["line"], r["to"]))
+            except Exception:
+                pass
+    out = open(rp, "a")
     for path, checks in FILES.items():
         if only and only not in path:
             continue
@@ -111,6 +120,8 @@ def main():
         orig = "\n".join(src)
         pkg = "./" + os.path.dirname(path)
         for (i, old, new, newline) in ms:
+            if (path, i + 1, new[:120]) in done:
+                continue  # already tried in an earlier pass
             mutated = list(src)
             mutated[i] = newline
             open(full, "w").write("\n".join(mutated))
